@@ -119,12 +119,25 @@ func suiteHubSubs(o *Out, r *Rng, n int, tier string) {
 		concurrentFeed := uint64(5 + r.Intn(16))
 		tail := uint64(3)
 		final := head + concurrentFeed + tail
-		neverReads := r.Intn(3) == 0
+		mode := r.Intn(4) // 1: one subscriber never reads; 2: one subscriber reads late, but within its buffer
+		neverReads := mode == 1
+		lagReads := mode == 2
 		if neverReads {
 			tail = 130 // enough to overflow a subscriber that never reads (capacity 100 + burst)
 			final = head + concurrentFeed + tail
 		}
-		o.Case("hubsubs", k, final, b2i(neverReads))
+		if lagReads {
+			// every live block gives the subscriber at most two events (New, and Irreversible for the block that
+			// became final): the late reader has at most 2*(concurrentFeed+tail) = 100 events waiting — its buffer —,
+			// whatever part of the concurrent feed went into its burst: it must not be terminated
+			tail = 50 - concurrentFeed
+			final = head + concurrentFeed + tail
+		}
+		flag := b2i(neverReads)
+		if lagReads {
+			flag = 2
+		}
+		o.Case("hubsubs", k, final, flag)
 		fh, ls := newReadyHub(first, head, 100)
 		if !fh.IsReady() {
 			o.Impl("trial hub-not-ready")
@@ -174,8 +187,8 @@ func suiteHubSubs(o *Out, r *Rng, n int, tier string) {
 			if sr.src == nil {
 				continue
 			}
-			if neverReads && victim < 0 {
-				victim = j // obtained but never run: its channel fills up
+			if (neverReads || lagReads) && victim < 0 {
+				victim = j // obtained but not run (yet): its channel fills up
 				continue
 			}
 			go sr.src.Run()
@@ -201,6 +214,10 @@ func suiteHubSubs(o *Out, r *Rng, n int, tier string) {
 			for t := 0; t < 400 && !caughtUp(b.Num); t++ {
 				time.Sleep(100 * time.Microsecond)
 			}
+		}
+		if lagReads && victim >= 0 {
+			go subs[victim].src.Run() // the late reader starts now: everything since its burst is still in its channel
+			victim = -1
 		}
 		// wait for delivery to settle
 		deadline := time.Now().Add(5 * time.Second)
